@@ -54,7 +54,7 @@ def solution_text(rng, n, db, rich=False):
     lines.append(" units %s" % units)
     pool = ["Na", "K", "Ca", "Mg", "Cl", "S(6)", "C(4)", "Si"]
     if db in ("phreeqc.dat", "wateq4f.dat", "Amm.dat"):
-        pool += ["Sr", "Ba", "Fe", "N(5)", "Al"]
+        pool += ["Sr", "Ba", "Fe", "N(5)"]
     if db == "pitzer.dat":
         pool = ["Na", "K", "Ca", "Mg", "Cl", "S(6)", "C(4)", "Sr", "Ba"]
     k = rng.randint(3, 7) if rich else rng.randint(2, 6)
@@ -63,7 +63,7 @@ def solution_text(rng, n, db, rich=False):
         chosen.append("Cl")
     charge_on = rng.choice(["Cl", None, None, "pH"]) if "Cl" in chosen else None
     for e in chosen:
-        lo, hi = (0.001, 0.1) if e in ("Fe", "Al", "Ba", "Si") else (0.1, 30)
+        lo, hi = (0.001, 0.05) if e in ("Fe", "Al", "Ba", "Si", "Sr") else (0.1, 30)
         v = rng.uniform(lo, hi) * scale
         extra = " charge" if charge_on == e else ""
         lines.append(" %s %s%s" % (e, fmt(v), extra))
@@ -281,6 +281,8 @@ def history(rng, forced=None):
     kinds = forced if forced is not None else [k for k in KINDS if rng.random() < 0.4]
     if db == "pitzer.dat":
         kinds = [k for k in kinds if k != "surface"]
+    if not kinds:
+        kinds = [rng.choice(KINDS[:3])] if db != "pitzer.dat" else ["reaction"]
     incremental = rng.random() < 0.5
     use_mix = rng.random() < 0.3
     run_cells = rng.random() < 0.2
@@ -382,8 +384,8 @@ def history(rng, forced=None):
                     if s > 1 and rng.random() < 0.5:
                         t, mode, unit = reaction_text(rng, 1, db)
                         lines.append(t)
-                    if s > 1 and rng.random() < 0.15:
-                        lines.append("USE reaction none\n")
+                    if s > 1 and rng.random() < 0.15 and (len(kinds) > 1 or (use_mix and s == 1)):
+                        lines.append("USE reaction none\n")      # (with nothing else to react the engine skips the step)
                         continue
                     lines.append("USE reaction 1\n")
                     step["reaction"] = 1
